@@ -2,10 +2,12 @@
 package main
 
 import (
+	"bytes"
 	"errors"
 	"fmt"
 	"strconv"
 	"strings"
+	"sync"
 
 	"github.com/safing/portbase/formats/varint"
 
@@ -32,6 +34,13 @@ func (exec) Do(line string) string {
 		return "bad-op"
 	}
 	switch f[0] {
+	case "conc": // implementation only: conc <goroutines>:<iterations>:<seed>
+		var n, iters int
+		var seed uint64
+		if _, err := fmt.Sscanf(f[1], "%d:%d:%d", &n, &iters, &seed); err != nil || n < 1 || n > 64 {
+			return "bad-op"
+		}
+		return concurrentPackers(n, iters, seed)
 	case "p8", "p16", "p32", "p64", "es":
 		n, err := strconv.ParseUint(f[1], 10, 64)
 		if err != nil {
@@ -84,6 +93,79 @@ func (exec) Do(line string) string {
 		return fmt.Sprintf("ok %s %d", hxlib.Hex(blk), tot)
 	}
 	return "bad-op"
+}
+
+// concurrentPackers: the functions of the package are pure in the model (no state shared between calls). n
+// goroutines pack values of their own (every width, PrependLength) in a tight loop, compare each result with the
+// reference encoder and decode their own output. Returns "ok" or the first failure.
+func concurrentPackers(n, iters int, seed uint64) string {
+	var wg sync.WaitGroup
+	start := make(chan struct{})
+	fails := make(chan string, n)
+	for g := 0; g < n; g++ {
+		wg.Add(1)
+		go func(g int) {
+			defer wg.Done()
+			defer func() {
+				if r := recover(); r != nil {
+					fails <- fmt.Sprintf("PANIC g=%d: %v", g, r)
+				}
+			}()
+			x := seed*0x9E3779B97F4A7C15 + uint64(g)*0xD1B54A32D192ED03 + 1
+			data := bytes.Repeat([]byte{byte(g)}, g*29%200)
+			<-start
+			for it := 0; it < iters; it++ {
+				x ^= x << 13
+				x ^= x >> 7
+				x ^= x << 17
+				v := x >> (uint(g*11+it) % 64) // every encoded length occurs in every goroutine
+				var got []byte
+				var back uint64
+				var k int
+				var err error
+				switch it % 4 {
+				case 0:
+					v &= 0xffff
+					got = varint.Pack16(uint16(v))
+					var b uint16
+					b, k, err = varint.Unpack16(got)
+					back = uint64(b)
+				case 1:
+					v &= 0xffffffff
+					got = varint.Pack32(uint32(v))
+					var b uint32
+					b, k, err = varint.Unpack32(got)
+					back = uint64(b)
+				case 2:
+					got = varint.Pack64(v)
+					back, k, err = varint.Unpack64(got)
+				default:
+					pl := varint.PrependLength(data)
+					blk, tot, e := varint.GetNextBlock(pl)
+					if e != nil || tot != len(pl) || !bytes.Equal(blk, data) || !bytes.Equal(pl[:len(pl)-len(data)], refPut(uint64(len(data)))) {
+						fails <- fmt.Sprintf("FAIL g=%d iter=%d PrependLength(%d bytes) = %s…, GetNextBlock of it: %d bytes, total %d, err %v", g, it, len(data), hxlib.Hex(pl[:min(len(pl), 12)]), len(blk), tot, e)
+						return
+					}
+					continue
+				}
+				if want := refPut(v); !bytes.Equal(got, want) {
+					fails <- fmt.Sprintf("FAIL g=%d iter=%d Pack(%d) = %s, the shortest standard base-128 form is %s", g, it, v, hxlib.Hex(got), hxlib.Hex(want))
+					return
+				}
+				if err != nil || back != v || k != len(got) {
+					fails <- fmt.Sprintf("FAIL g=%d iter=%d Unpack(Pack(%d)) = %d, %d, %v", g, it, v, back, k, err)
+					return
+				}
+			}
+		}(g)
+	}
+	close(start)
+	wg.Wait()
+	close(fails)
+	for f := range fails {
+		return f
+	}
+	return "ok"
 }
 
 // meaning is the plain base-128 little-endian value of a complete varint (continuation bit on all but the
@@ -145,6 +227,10 @@ func monitor(c hxlib.Case, outs []string) (vs []hxlib.Violation) {
 			continue
 		}
 		switch f[0] {
+		case "conc":
+			if o != "ok" {
+				add(i, "C10:concurrent-callers", o)
+			}
 		case "p8", "p16", "p32", "p64":
 			// "the packed form is the shortest standard base-128 varint": there is exactly one such form
 			n, _ := strconv.ParseUint(f[1], 10, 64)
@@ -373,6 +459,12 @@ func generate(r *hxlib.Run, emit func(hxlib.Case)) {
 		group("random-bytes", n >= 2, "u8 "+h, "u16 "+h, "u32 "+h, "u64 "+h, "gnb "+h)
 	}
 	flush()
+	// (e) concurrent callers (implementation only): the model's functions are pure, i.e. no state is shared
+	// between calls; goroutines pack values of their own and check every result
+	for i := 0; i < r.Budget(6, 40); i++ {
+		emit(hxlib.Case{Lines: []string{fmt.Sprintf("conc %d:%d:%d", []int{2, 4, 8, 16, 32}[r.Rng.Intn(5)], r.Budget(40000, 400000), r.Rng.Intn(1000))},
+			NonTrivial: true, Kind: "concurrent-callers", NoModel: true})
+	}
 }
 
 func cmp(a, b uint64) string {
@@ -388,7 +480,7 @@ func cmp(a, b uint64) string {
 func main() {
 	hxlib.Main(&hxlib.Harness{
 		Prop:     "C10",
-		Rule:     "cases are groups of ≤64 varint-package calls: pack/unpack pairs with random trailing bytes and every truncation for all 2^8 values, 2^16 values (thorough: all; quick: boundaries + every 7th), every 7-bit-group boundary ±2 and seeded random 32/64-bit values; every byte string of length ≤2 (quick) / ≤3 (thorough) through all four Unpack* and GetNextBlock; over-long encodings; length prefixes at all boundary values up to 2^64-1. A case is non-trivial if it contains a multi-byte encoding or an error outcome; distinct by the hash of its op lines.",
+		Rule:     "cases are groups of ≤64 varint-package calls: pack/unpack pairs with random trailing bytes and every truncation for all 2^8 values, 2^16 values (thorough: all; quick: boundaries + every 7th), every 7-bit-group boundary ±2 and seeded random 32/64-bit values; every byte string of length ≤2 (quick) / ≤3 (thorough) through all four Unpack* and GetNextBlock; over-long encodings; length prefixes at all boundary values up to 2^64-1. Concurrent callers (implementation only): 2–32 goroutines pack values of their own with every Pack*/PrependLength, compare with the reference encoder and decode their own output — the model's functions are pure, this stream ties the absence of state shared between calls. A case is non-trivial if it contains a multi-byte encoding or an error outcome; distinct by the hash of its op lines.",
 		Generate: generate,
 		NewExec:  func(*hxlib.Run) hxlib.Exec { return exec{} },
 		Monitor:  monitor,
